@@ -1,20 +1,22 @@
 #!/bin/bash
-# usage: tools/confirm_seed.sh <worktree> <seed-dir> <pkg-dir-relative> [more demo dest dirs...]
+# usage: tools/confirm_seed.sh <worktree> <seed-dir>
 # Confirms a seeded change: patch applies, tree builds, suite passes, demo test(s) fail with it and pass without it.
-# Demo files: every *_test.go in <seed-dir>/demo is copied to <pkg-dir-relative>.
-wt="$1"; seed="$(readlink -f "$2")"; pkg="$3"
+# Demo files: every *_test.go in <seed-dir>/demo is copied into the directory of the package named in its package clause.
+wt="$1"; seed="$(readlink -f "$2")"
 . /verif/env.sh
 export CGO_LDFLAGS="-L/usr/lib/llvm-14/lib -lLLVM-14"
 cd "$wt" || exit 2
 git checkout -q -- . && git clean -fdq
+declare -A DIRS=( [ddptypes]=src/ddptypes [parser]=src/parser [alias_trie]=src/parser/alias_trie [ordered_map]=src/parser/ordered_map [scanner]=src/scanner [compiler]=src/compiler [typechecker]=src/parser/typechecker [resolver]=src/parser/resolver [ast]=src/ast [token]=src/token [ddperror]=src/ddperror [main]=cmd/kddp [linker]=cmd/internal/linker [annotators]=src/ast/annotators )
+place() { pk=""; for f in "$seed"/demo/*_test.go; do p=$(grep -m1 '^package ' "$f" | awk '{print $2}'); p=${p%_test}; d=${DIRS[$p]}; ip=$(head -3 "$f" | grep -o 'intended path: *[^ ]*' | sed 's/intended path: *//'); [ -n "$ip" ] && d=$(dirname "$ip"); [ -z "$d" ] && { echo "unknown package $p"; exit 2; }; cp "$f" "$d/"; pk="$pk ./$d/"; done; pk=$(echo $pk | tr ' ' '\n' | sort -u | tr '\n' ' '); }
 echo "## $seed"
-cp "$seed"/demo/*_test.go "$pkg"/ || exit 2
-if go test -vet=off -count=1 ./"$pkg"/ > /tmp/cs.$$ 2>&1; then echo "clean tree: demo PASS (expected)"; else echo "clean tree: demo FAIL (unexpected)"; tail -20 /tmp/cs.$$; fi
+place
+if timeout 600 go test -vet=off -count=1 $pk > /tmp/cs.$$ 2>&1; then echo "clean tree: demo PASS (expected)"; else echo "clean tree: demo FAIL (unexpected)"; tail -20 /tmp/cs.$$; fi
 git clean -fdq
 git apply "$seed/patch.diff" || { echo "patch does not apply"; exit 2; }
 go build ./src/... ./cmd/... && echo "patched: build ok" || echo "patched: BUILD FAILS"
 if go test -vet=off -count=1 ./src/... > /tmp/cs.$$ 2>&1; then echo "patched: suite PASS (expected)"; else echo "patched: suite FAIL (unexpected)"; grep -v "^ok\|no test files" /tmp/cs.$$ | tail; fi
-cp "$seed"/demo/*_test.go "$pkg"/
-if go test -vet=off -count=1 ./"$pkg"/ > /tmp/cs.$$ 2>&1; then echo "patched: demo PASS (unexpected)"; else echo "patched: demo FAIL (expected)"; grep -m3 -- "--- FAIL\|panic" /tmp/cs.$$; fi
+place
+if (ulimit -v 8000000; timeout 600 go test -vet=off -count=1 $pk > /tmp/cs.$$ 2>&1); then echo "patched: demo PASS (unexpected)"; else echo "patched: demo FAIL (expected)"; grep -m3 -- "--- FAIL\|panic\|fatal error\|FAIL" /tmp/cs.$$; fi
 rm -f /tmp/cs.$$
 git checkout -q -- . && git clean -fdq
